@@ -18,7 +18,7 @@ CHECKS = {
                 'note (C01_reimport_of_canonical_note), the kern export of that token is that text (string lemmas on replace / '
                 'join, sort identity on sorted lists) and export-import-export = export (C01_note_fixed_point); the same for every '
                 'well-formed REST (C01_reimport_of_canonical_rest, C01_rest_fixed_point); for CHORDS of any number of notes the canonical '
-                'text is read back as exactly its notes, in order (C01_reimport_of_canonical_chord) and exported as the same text again (C01_chord_fixed_point); at DOCUMENT level for single-spine **kern documents of any number of lines whose cells are in normal form (the export of their own token - canonical notes are): export o import is the identity on the text (C01_single_spine_document_fixed_point, induction over the lines of the importer model composed with the exporter model and the line reader). For '
+                'text is read back as exactly its notes, in order (C01_reimport_of_canonical_chord) and exported as the same text again (C01_chord_fixed_point); at DOCUMENT level for single-spine **kern documents of any number of lines whose cells are in normal form (the export of their own token - canonical notes are): export o import is the identity on the text (C01_single_spine_document_fixed_point, induction over the lines of the importer model composed with the exporter model and the line reader), and for ANY spine structure - several spines, splits, joins, comments - a document whose cells are in normal form under the headers that govern them exports its own grid minus the !! lines and the all-null lines (C01_normal_documents_are_fixed_points). For '
                 'other tokens and whole documents the fixed point is decided by the correspondence of the scanner / importer / '
                 'exporter model with kernpy and by running the property on kernpy (signifiers of several characters - &( Ww TT xx yy '
                 '[y ?? - lie outside the scanner model and are round-tripped on kernpy alone). Known findings K11 (a rest inside a chord) '
